@@ -24,6 +24,8 @@ THEOREMS = [
     "C07.frame_comments",
     "C07.frame_other_text",
     "C07.parser_docstr_only_after_def",
+    "C07.async_docstring_like_function",
+    "C07.async_edit_like_function",
     "C07.erase_docTrans_partial",
     "C07.erase_docTrans_not_full_bare_annotation",
     "C07.erase_docTrans_not_full_double_string",
@@ -256,7 +258,7 @@ def _impl_one(case):
 # ------------------------------------------------------------------------------------------------
 DEF_KINDS = ("FunctionDefinitionStart", "ClassDefinitionStart")
 PRIORITY = ["unaligned", "wrong-open-paren+stray-arrow", "stray-arrow", "wrong-open-paren", "node-spans-two-definitions", "docstring-node-overlong", "same-line-tail", "indent-sample-not-statement", "indent-under-4", "docstring-not-triple-quoted",
-            "triple-quote-in-docstring", "header-last-node", "async-docstring-removed", "header-resynth",
+            "triple-quote-in-docstring", "header-last-node", "empty-docstring-removed", "async-docstring-removed", "header-resynth",
             "docstring-removed", "return-type-changed"]
 
 
@@ -531,6 +533,9 @@ def align(nb, na, parses):
             import re
 
             fl = ["async-docstring-removed" if re.search(r"\basync\s+def\b", hdr["value"]) else "docstring-removed"]
+            if x["value"].strip() in ('"' * 6, "'" * 6):
+                # `get_doc_str(node) or ""`: an empty docstring is "no docstring wanted", the node is deleted
+                fl.append("empty-docstring-removed")
             if _overlong(x["value"]):
                 fl.append("docstring-node-overlong")
             out.append({"what": "doc-removed", "start": line, "end": line, "hdr": hdr, "op": (i, 1, []), "flags": fl, "old": x["value"]})
@@ -760,7 +765,9 @@ WITNESSES = [
      "def g(a):\n    \'\'\'Say \"\"\"hi\"\"\" to a.\n\n    :param a: the a\n    :type a: ```int```\n    \'\'\'\n    return a\n", ("rest", True, None), None),
     ("w-unbalanced-comment", ["C07-header-last-node-statements", "C07-header-last-node-lines"],
      "def h(a):\n" + REST_DOC + '    return a\n\nclass C(Base):  # 1) note\n    """Doc."""\n    x = 1\n', ("rest", True, None), None),
-    ("w-async-sole", ["C07-async-sole-docstring"], 'async def g(a):\n    """Doc."""\n\ndef h(a):\n' + REST_DOC + "    return a\n", ("rest", True, None), None),
+    # an `async def` whose body is its docstring, in a file that is rewritten: the docstring must stay (get_doc_str handles AsyncFunctionDef)
+    ("w-async-sole", [], 'async def g(a):\n    """Doc."""\n\ndef h(a):\n' + REST_DOC + "    return a\n", ("rest", True, None), None),
+    ("w-empty-docstring-sole-body", ["C07-empty-docstring-sole-body"], 'class C:\n    ' + '"' * 6 + '\n\ndef h(a):\n' + REST_DOC + "    return a\n", ("rest", True, None), None),
     ("w-stub-atomic", [], "def s(a): ...\n\ndef h(a):\n" + REST_DOC + "    return a\n", ("rest", True, None), None),
 ]
 
@@ -1041,6 +1048,10 @@ def run(chk: core.Check) -> int:
         for fid in fids:
             if fid not in got_ids:
                 stale.append(fid)
+        if wid == "w-async-sole":
+            chk.oblige("witness w-async-sole: the file is rewritten, stays Python, and the `async def` keeps its docstring-only body", "witness",
+                       r["error"] is None and r["after"] != src and (r["after"] or "").startswith('async def g(a):\n    """Doc."""\n') and not fails,
+                       "error=%s after=%r" % (r["error"], (r["after"] or "")[:60]))
         if wid == "w-stub-atomic":
             chk.oblige("witness w-stub-atomic: the CST stage raises and the file is byte-identical", "witness",
                        r["error"] == "AttributeError" and r["entered"] and r["after"] == src, "error=%s entered=%s" % (r["error"], r["entered"]))
